@@ -102,7 +102,13 @@ func (p *PacketProcessor) ProcessPacketData(data []byte, _ *gopacket.CaptureInfo
 }
 
 func validPacket(decoded []gopacket.LayerType) bool {
-	return len(decoded) == 3 || (len(decoded) == 2 && decoded[0] == layers.LayerTypeIPv4)
+	// the decoders are reused between packets: only accept the exact layer chain,
+	// otherwise fields of a previous packet would be reported
+	n := len(decoded)
+	if n < 2 || decoded[n-1] != layers.LayerTypeICMPv4 || decoded[n-2] != layers.LayerTypeIPv4 {
+		return false
+	}
+	return n == 2 || (n == 3 && decoded[0] == layers.LayerTypeEthernet)
 }
 
 type PacketFiller struct {
